@@ -229,6 +229,30 @@ func otherKeys(kp keyPair) []crypto.PublicKey {
 		}
 	}
 	r = append(r, nil, "not a key", 42)
+	// well-formed RSA public keys nobody generated: another key's modulus (and
+	// the signer's own, if it has one) with a small / unusual public exponent
+	foreign := keyFor(icose.PS256, kp.Idx+1).Pub.(*rsa.PublicKey)
+	mods := []*big.Int{foreign.N}
+	if own, ok := kp.Pub.(*rsa.PublicKey); ok {
+		mods = append(mods, own.N)
+	}
+	for _, n := range mods {
+		for _, e := range []int{3, 17, 257, 65539} {
+			r = append(r, &rsa.PublicKey{N: new(big.Int).Set(n), E: e})
+		}
+	}
+	// EC keys with the signer's X and another Y (the negated point), another
+	// curve's generator, Ed25519 keys differing in one bit
+	switch pub := kp.Pub.(type) {
+	case *ecdsa.PublicKey:
+		negY := new(big.Int).Sub(pub.Curve.Params().P, pub.Y)
+		r = append(r, &ecdsa.PublicKey{Curve: pub.Curve, X: new(big.Int).Set(pub.X), Y: negY},
+			&ecdsa.PublicKey{Curve: pub.Curve, X: new(big.Int).Set(pub.Curve.Params().Gx), Y: new(big.Int).Set(pub.Curve.Params().Gy)})
+	case ed25519.PublicKey:
+		k := append(ed25519.PublicKey{}, pub...)
+		k[5] ^= 0x10
+		r = append(r, k)
+	}
 	return r
 }
 
@@ -347,7 +371,7 @@ func TestC02_Splices(t *testing.T) {
 			t.Fatalf("cannot sign: %v", err)
 		}
 		otherTrafficEvery(4)
-		kind := rapid.SampledFrom([]string{"splice-payload", "splice-protected", "splice-signature", "sig-zero", "sig-random", "sig-flip", "byte-edits", "alg-unprotected-only", "alg-nowhere", "nil-payload", "nil-payload-original-sig", "nil-payload-original-sig", "empty-signature", "wrong-key", "reencode", "equiv-protected", "equiv-protected", "equiv-payload", "extend-payload", "extend-payload", "extend-protected", "shrink-payload", "sig-reencode", "sig-reencode", "prefix-payload", "prefix-payload", "other-container", "other-container", "keyless-signature", "keyless-signature", "element-rewrap", "element-rewrap", "signature-less-evidence"}).Draw(t, "kind")
+		kind := rapid.SampledFrom([]string{"splice-payload", "splice-protected", "splice-signature", "sig-zero", "sig-random", "sig-flip", "byte-edits", "alg-unprotected-only", "alg-nowhere", "nil-payload", "nil-payload-original-sig", "nil-payload-original-sig", "empty-signature", "wrong-key", "reencode", "equiv-protected", "equiv-protected", "equiv-payload", "extend-payload", "extend-payload", "extend-protected", "shrink-payload", "sig-reencode", "sig-reencode", "prefix-payload", "prefix-payload", "other-container", "other-container", "keyless-signature", "keyless-signature", "element-rewrap", "element-rewrap", "signature-less-evidence", "protected-params", "protected-params"}).Draw(t, "kind")
 		var mut []byte
 		detail := ""
 		rebuild := func(prot, pay, sig []byte) []byte {
@@ -607,6 +631,36 @@ func TestC02_Splices(t *testing.T) {
 			}
 			st.Case(kpA.Name()+"|signature-less-evidence|"+prior+"|"+mode+"|"+mA.ClassVector(), "signature-less-evidence", icose.AlgName(algA))
 			return
+		case "protected-params":
+			// further (standard) parameters in the protected header around the
+			// algorithm - a kid, a content type, an IV, a crit list naming
+			// parameters every implementation understands (or none, or a
+			// private one) - under the original signature, with the genuine or
+			// an altered payload: other protected bytes, so no valid signature
+			kid := icbor.Bstr([]byte("key-1"))
+			extra := [][][2]*icbor.Node{
+				{icbor.P(icbor.U(2), icbor.Arr(icbor.U(4))), icbor.P(icbor.U(4), kid)},
+				{icbor.P(icbor.U(2), icbor.Arr(icbor.U(1)))},
+				{icbor.P(icbor.U(2), icbor.Arr(icbor.U(3))), icbor.P(icbor.U(3), icbor.U(60))},
+				{icbor.P(icbor.U(2), icbor.Arr(icbor.U(1), icbor.U(3), icbor.U(4))), icbor.P(icbor.U(3), icbor.Tstr("application/eat+cwt")), icbor.P(icbor.U(4), kid)},
+				{icbor.P(icbor.U(4), kid)},
+				{icbor.P(icbor.U(3), icbor.U(60))},
+				{icbor.P(icbor.U(2), icbor.Arr())},
+				{icbor.P(icbor.U(2), icbor.Arr(icbor.I(-70001))), icbor.P(icbor.I(-70001), icbor.U(1))},
+				{icbor.P(icbor.U(5), icbor.Bstr(make([]byte, 12)))},
+				{icbor.P(icbor.U(33), icbor.Bstr([]byte{0x30, 0x00}))},
+			}
+			shape := rapid.IntRange(0, len(extra)-1).Draw(t, "params.shape")
+			pairs := append([][2]*icbor.Node{icbor.P(icbor.U(1), icbor.I(algA))}, extra[shape]...)
+			if genBool.Draw(t, "params.algLast") {
+				pairs = append(pairs[1:], pairs[0])
+			}
+			pay := append([]byte{}, a.Parts.Payload...)
+			if genBool.Draw(t, "params.alterPayload") {
+				pay[len(pay)-1] ^= 0x01
+			}
+			mut = rebuild(icbor.Encode(icbor.Map(pairs...)), pay, a.Parts.Signature)
+			detail = fmt.Sprintf("shape#%d", shape)
 		case "element-rewrap":
 			// the genuine header, payload and signature, but one element of the
 			// array is no longer the byte string the structure requires: the
